@@ -248,8 +248,10 @@ def no_inplace_on_shared_values(prog, rep):
                                   f.loc(a))
         ldefs_ = {st_.targets[0].id: st_.value for st_ in ast.walk(f.node) if isinstance(st_, ast.Assign) and len(st_.targets) == 1 and isinstance(st_.targets[0], ast.Name)}
         for a in ast.walk(f.node):
-            if isinstance(a, ast.Assign) and len(a.targets) == 1 and isinstance(a.targets[0], ast.Subscript) and isinstance(a.value, ast.BinOp) and \
-                    norm(ldefs_.get(a.value.left.id, a.value.left) if isinstance(a.value.left, ast.Name) else a.value.left) == norm(a.targets[0]):
+            # (`new = old - x; T[..] = new`: a local holding the new value is read in place)
+            val_ = ldefs_.get(a.value.id, a.value) if isinstance(a, ast.Assign) and isinstance(a.value, ast.Name) else getattr(a, "value", None)
+            if isinstance(a, ast.Assign) and len(a.targets) == 1 and isinstance(a.targets[0], ast.Subscript) and isinstance(val_, ast.BinOp) and \
+                    norm(ldefs_.get(val_.left.id, val_.left) if isinstance(val_.left, ast.Name) else val_.left) == norm(a.targets[0]):
                 base = a.targets[0]
                 while isinstance(base, ast.Subscript):
                     base = base.value
